@@ -3,6 +3,8 @@
 pub(crate) mod ebr_impl;
 mod strong;
 mod utils;
+#[cfg(feature = "circ_verif")]
+pub mod verif;
 mod weak;
 
 pub use ebr_impl::{cs, Guard};
